@@ -140,7 +140,7 @@ void finish(int status)
 	if (status == 1 || VERBOSE) {
 		int back, kind, tid;
 		int64_t a, b, t;
-		for (back = 59; back >= 0; back--) {
+		for (back = VERBOSE > 1 ? 1500 : 59; back >= 0; back--) {
 			long idx = simk_ring(back, &kind, &tid, &a, &b, &t);
 			if (idx < 0)
 				continue;
@@ -148,6 +148,7 @@ void finish(int status)
 				      idx, tid, t - simk_vstart(), evname(kind), a, b);
 			if (n > cap - 400)
 				break;
+
 		}
 	}
 	n += snprintf(o + n, cap - n, "END\n");
